@@ -145,6 +145,14 @@ def late_handshake_specs():
                 order = ([0] if first == 0 else []) + [1] * 40 + [0] * 60
                 out.append({"conns": [a, b_], "order": order, "tseed": 1 + i})
                 i += 1
+    # a QUIC client that changes its address in the middle of the connection (both endpoints use connection IDs): what was exported
+    # before the change stays as it was
+    data = lambda d, n: {"op": "data", "d": d, "pk": [{"fr": [["stream", 0, n, None, False, True, None]], "gap": 0, "pnl": 0}]}
+    for j, (sl, cl, v6) in enumerate(((8, 8, False), (4, 12, True), (20, 1, False))):
+        q = {"kind": "quic", "seed": 8900 + j, "suite": [0x1301, 0x1303, 0x1302][j], "s_scid_len": sl, "c_scid_len": cl,
+             "steps": [data(0, 20), data(1, 60), {"op": "rebind"}, data(0, 21), data(1, 61), data(0, 22), {"op": "rebind"}, data(1, 62), data(0, 23)],
+             "ep": scenario.default_ep(60 + j, v6=v6)}
+        out.append({"conns": [q], "order": [0], "tseed": 40 + j})
     return out
 
 
@@ -155,7 +163,7 @@ def stages(tier):
 
 
 RULE = ("stage late-handshake-behind-a-complete-connection: two TLS connections, one complete before the other's (fragmented or plain) handshake, "
-        "both creation orders; stage all-cuts: captures of 1-3 TLS/QUIC connections with retransmitted and (causally) displaced TCP segments (cuts inside handshakes, inside records spanning packets, between coalesced flights and after key "
+        "both creation orders, and QUIC connections whose client changes its address twice; stage all-cuts: captures of 1-3 TLS/QUIC connections with retransmitted and (causally) displaced TCP segments (cuts inside handshakes, inside records spanning packets, between coalesced flights and after key "
         "changes arise because EVERY cut position k = 0..N of each capture is run); metamorphic chain: E(k) (per connection: per-direction byte "
         "stream for TLS, datagram list for QUIC) is a prefix of E(k+1), E(k) is a prefix of the ground truth, E(N) equals it.  Non-trivial: the "
         "chain has >= 3 distinct values and a cut falls strictly inside a TLS record that spans packets (or the capture has a QUIC connection); "
